@@ -151,8 +151,14 @@ class InvertedDoublePendulum(
         y = site_pos[2]
         v1, v2 = data.qvel[1], data.qvel[2]
 
+        dist_penalty = 0.01 * x**2 + (y - 2) ** 2
+        vel_penalty = 1e-3 * v1**2 + 5e-3 * v2**2
+        alive_bonus = (y > 1).astype(float) * self.healthy_reward
         return {
-            "dist_penalty": 0.01 * x**2 + (y - 2) ** 2,
-            "vel_penalty": 1e-3 * v1**2 + 5e-3 * v2**2,
-            "alive_bonus": (y > 1).astype(float) * self.healthy_reward,
+            "dist_penalty": dist_penalty,
+            "vel_penalty": vel_penalty,
+            "alive_bonus": alive_bonus,
+            "reward_survive": alive_bonus,
+            "distance_penalty": -dist_penalty,
+            "velocity_penalty": -vel_penalty,
         }
